@@ -19,7 +19,7 @@ def configs(ctx):
 
 
 def run(ctx):
-    fam.run_family(ctx, PROP, configs(ctx), max_exec=ctx.pick(60_000, 2_000_000), budget_s=ctx.pick(150, 3000))
+    fam.run_family(ctx, PROP, configs(ctx), max_exec=ctx.pick(60_000, 2_000_000), budget_s=ctx.pick(1500, 6000))
     ctx.assume(
         "every event the cluster produces is delivered exactly once (C06 discharges this); the event supply is finite, so the complete DFS covers every fair delivery order",
         "batch bound %d" % ctx.pick(2, 3),
